@@ -78,11 +78,7 @@ def main(argv=None):
         for i in range(len(jobs)):
             results.append(_work(i))
     else:
-        import multiprocessing as mp
-        ctxmp = mp.get_context("fork")
-        with ctxmp.Pool(processes=nproc, initializer=_limit_memory) as pool:
-            for r in pool.imap_unordered(_work, range(len(jobs))):
-                results.append(r)
+        results = _run_jobs(len(jobs), nproc)
     results.sort(key=lambda r: r["index"])
 
     known = oblig.load_known()
@@ -183,6 +179,77 @@ MAX_REPLAYED_PER_OBLIGATION = 48
 REPLAY_BUDGET_S = {"quick": 90, "thorough": 900}
 
 
+def _child(i, conn):
+    _limit_memory()
+    # deep recursion of the explorer (continuation-passing iterator models) runs on a thread with a large stack: the
+    # default 8 MB main-thread stack ended some explorations of changed trees with a segmentation fault
+    import threading
+    box = {}
+
+    def body():
+        try:
+            box["r"] = _work(i)
+        except BaseException as e:      # MemoryError and friends: reported, never swallowed
+            box["r"] = _dead_result(i, "worker failed: %s: %s" % (type(e).__name__, str(e)[:200]))
+    try:
+        threading.stack_size(1 << 30)
+        t = threading.Thread(target=body)
+        t.start()
+        t.join()
+    except Exception:
+        body()
+    r = box.get("r") or _dead_result(i, "worker thread ended without a result")
+    try:
+        conn.send(r)
+    except Exception as e:
+        try:
+            conn.send(_dead_result(i, "worker result could not be sent: %s" % str(e)[:200]))
+        except Exception:
+            pass
+    finally:
+        conn.close()
+
+
+def _dead_result(i, why):
+    ob, profile = _JOBS[i]
+    rec = {"id": ob.id, "profile": profile, "desc": ob.desc, "functions": {}, "paths": 0, "paths_by_outcome": {}, "queries": 0,
+           "unsat": 0, "sat": 0, "unknown": 0, "witnesses": [], "status": "inconclusive", "notes": ["INCONCLUSIVE: " + why],
+           "blocks": 0, "solver_s": 0.0, "pruned": 0, "assumed_unreachable": [], "models_used": [], "uninterpreted": [], "wall_s": 0.0}
+    return {"index": i, "rec": rec, "cands": [], "queries": 0, "branch_checks": 0, "replays": 0, "problems": [], "cross_stats": {}}
+
+
+def _run_jobs(njobs, nproc):
+    """One forked process per job, at most nproc at a time.  A worker that dies (address-space cap, solver abort, kill)
+    yields an inconclusive record for its job - it can neither hang the run nor be mistaken for success."""
+    import multiprocessing as mp
+    from multiprocessing.connection import wait
+    ctxmp = mp.get_context("fork")
+    pending = list(range(njobs))
+    running = {}     # conn -> (index, process)
+    results = []
+    while pending or running:
+        while pending and len(running) < nproc:
+            i = pending.pop(0)
+            parent, child = ctxmp.Pipe(duplex=False)
+            pr = ctxmp.Process(target=_child, args=(i, child))
+            pr.start()
+            child.close()
+            running[parent] = (i, pr)
+        ready = wait(list(running.keys()), timeout=5)
+        for conn in ready:
+            i, pr = running.pop(conn)
+            try:
+                r = conn.recv()
+            except (EOFError, OSError):
+                pr.join(1)
+                r = _dead_result(i, "worker process died without a result (exit code %s): out of memory under the per-worker "
+                                    "cap, or a solver abort" % pr.exitcode)
+            results.append(r)
+            conn.close()
+            pr.join(5)
+    return results
+
+
 def _limit_memory():
     """Address-space cap per worker (VERIF_MEM_GB, default 9): a path explosion ends as an inconclusive obligation
     (MemoryError / solver out-of-memory), not as an exhausted machine (62 GB, no swap, 16 workers)."""
@@ -229,6 +296,19 @@ def _work(i):
             if R is not None and R.battery:
                 ctx.violation("the obligation breaks on this tree (%s); battery run instead" % str(e)[:120], None,
                               dict(R.facts, what="obligation not applicable to this code"), R.battery, R.judge, str(e)[:200])
+                ctx.rec["status"] = "inconclusive"
+        except Exception:
+            pass
+    # an obligation left inconclusive because the code no longer runs through the engine (an unsupported construct on its
+    # paths, a vacuous class) decides nothing either: the battery may still show a native deviation (same rule as above)
+    if ctx.rec["status"] == "inconclusive" and not sub.candidates and \
+            any(("unsupported construct" in n_ or "vacuous" in n_) for n_ in ctx.rec["notes"]):
+        try:
+            mod = sys.modules.get("mirsym.props.%s" % prop)
+            R = mod.rep() if mod is not None and hasattr(mod, "rep") else None
+            if R is not None and R.battery:
+                ctx.violation("the obligation could not be decided on this tree; battery run instead", None,
+                              dict(R.facts, what="obligation undecided on this code"), R.battery, R.judge, "undecided")
                 ctx.rec["status"] = "inconclusive"
         except Exception:
             pass
